@@ -37,6 +37,11 @@ type c13Plan struct {
 	// the call is cancelled or the channel closed: the error must still wrap what ended the call).
 	WithEED   bool `json:"with_eed,omitempty"`
 	FlushFull bool `json:"flush_full,omitempty"` // the cancelled send is the flush of a message that exactly filled its packets
+	// Flood (cancel): the response has hundreds of packages and no end, the consumer is one NextPackageUntil call whose
+	// callback wants them all: packets keep arriving while the call runs and after its context is cancelled. Once
+	// cancelled the call may still hand out what was queued at that moment, but it returns - it does not go on for
+	// as long as the server keeps sending.
+	Flood bool `json:"flood,omitempty"`
 	// close
 	Logout string `json:"logout,omitempty"` // answer | late | never | partial
 	// ConcurrentClose (closed-calls): two goroutines call Close on the channel at the same time.
@@ -108,6 +113,14 @@ func (c13) Gen(r *Rand, idx int, tier string) interface{} {
 	p.Consumer = Pick(r, []string{"next", "until", "until-nil", "until-err"})
 	p.SendAfter = r.Pct(50)
 	p.CauseCtx = p.Kind == "cancel" && r.Pct(30)
+	if p.Kind == "cancel" && r.Pct(15) {
+		p.Flood, p.Consumer, p.Final, p.Async = true, "until-all", false, true
+		p.NPkgs = 150 + r.Intn(250)
+		p.CancelAfter = 5 + r.Intn(60)
+		if p.QueueSize == 100 {
+			p.QueueSize = 5
+		}
+	}
 	p.WithEED = (p.Consumer == "until-nil" || p.Consumer == "until-err") && (p.Kind == "cancel" || p.Kind == "close-recv") && r.Pct(50)
 	p.Logout = Pick(r, []string{"answer", "answer", "late", "never", "partial", "drip"})
 	p.LateMs = Pick(r, []int{10, 1000, 59000, 61000})
@@ -229,6 +242,8 @@ type c13Res struct {
 	// connClosed: Conn.Close was called and returned (at connClosedAt): transport closed, reader ended - promptly
 	connClosed   bool
 	connClosedAt time.Duration
+	// flood: packages handed to the callback after the context was cancelled
+	afterCancel int
 }
 
 func (r *c13Res) violate(class, sig, format string, a ...interface{}) {
@@ -424,6 +439,12 @@ func (c13) Run(plan interface{}, schedSeed uint64, replay []simrt.Choice, lenien
 		}
 		v.Probe("send-with-cancelled-context")
 	}
+	if p.Flood && v.Class == "" {
+		v.Probe("cancel-while-packets-keep-arriving")
+		if res.afterCancel > p.QueueSize+2 {
+			v.Violate("late-return", "cancel: a receive goes on consuming packages after its context was cancelled", "NextPackageUntil (callback wants every package, %d packages arriving, queue size %d, %s context cancelled): the callback was handed %d more packages after the cancellation before the call returned", p.NPkgs, p.QueueSize, p.CancelWhat, res.afterCancel)
+		}
+	}
 	if p.Kind == "cancel-send2" && res.lateFrom > 0 && v.Class == "" {
 		// the package of the sender whose call failed with its context's error: whatever reaches the transport after
 		// that call has returned must not contain it (a send with a cancelled context writes nothing - and leaves
@@ -539,6 +560,8 @@ func c13Cancel(p *c13Plan, res *c13Res, conn *tds.Conn, ch *tds.Channel, cancelP
 	// (plain on purpose: an atomic would be a happens-before edge between the two tasks and could hide a race of
 	// the library; the detector's reports about harness variables are ignored by the worker)
 	var consumerIn bool
+	var floodSeqs []int
+	cancelledSeq := -1
 	consumer := simrt.Spawn("consumer", func() {
 		next := int32(1000)
 		for i := 0; i < p.NPkgs+6; i++ {
@@ -548,6 +571,14 @@ func c13Cancel(p *c13Plan, res *c13Res, conn *tds.Conn, ch *tds.Channel, cancelP
 			switch p.Consumer {
 			case "until":
 				pkg, err = ch.NextPackageUntil(own, true, func(pk tds.Package) (bool, error) { return true, nil })
+			case "until-all":
+				pkg, err = ch.NextPackageUntil(own, true, func(pk tds.Package) (bool, error) {
+					// (kept in the consumer's own slice and counted after the tasks have been joined: a variable shared with
+					// the canceller would be a race of the harness inside the library's call)
+					floodSeqs = append(floodSeqs, simrt.Record("flood-package", "", "", 0))
+					simrt.Yield(0) // the consumer does something with the package
+					return false, nil
+				})
 			case "until-nil":
 				_, err = ch.NextPackageUntil(own, true, nil)
 			case "until-err":
@@ -606,8 +637,15 @@ func c13Cancel(p *c13Plan, res *c13Res, conn *tds.Conn, ch *tds.Channel, cancelP
 		} else {
 			cancelOwn()
 		}
+		// (cancelling is a scheduling point of its own: the context is cancelled when the call returns, not before)
+		cancelledSeq = simrt.Record("cancelled", p.CancelWhat, "", 0)
 	})
 	simrt.Join(consumer, canceller)
+	for _, sq := range floodSeqs {
+		if cancelledSeq >= 0 && sq > cancelledSeq {
+			res.afterCancel++
+		}
+	}
 	if p.SendAfter && p.CancelWhat == "own" && p.FlushFull {
 		// queue exactly one packet body with a live context (it is sent at once), then flush with the cancelled one
 		raw := tds.NewTokenlessPackage()
@@ -1043,5 +1081,5 @@ func c13CloseRecv(p *c13Plan, res *c13Res, conn *tds.Conn, ch *tds.Channel) {
 
 // RequiredProbes: a batch in which one of these never fired explored nothing of that kind (exit 2, not a pass).
 func (c13) RequiredProbes() []string {
-	return []string{"landed-inside-call", "kind:cancel", "kind:close-queue", "kind:close-send", "kind:close-recv", "kind:closed-calls", "kind:conn-close", "send-with-cancelled-context", "send-cancelled-while-waiting-for-another-sender"}
+	return []string{"landed-inside-call", "kind:cancel", "kind:close-queue", "kind:close-send", "kind:close-recv", "kind:closed-calls", "kind:conn-close", "send-with-cancelled-context", "send-cancelled-while-waiting-for-another-sender", "cancel-while-packets-keep-arriving", "conn-closed-and-judged"}
 }
